@@ -11,6 +11,9 @@ CLAIMS = {
  "C01": ("def-use shape of every success return of the comparison route function (all tables / the key's table / makeList(first, idx+1) / makeList(idx, last+1)) + edge dominance (downward adjustment only on the op==LT edge and only under EqualStart) + tautology detection across siblings (no RangeShard.EqualStart may be `FindForKey(key) == index`) + constant table of inverseOperator, over SSA",
          "Decides only the shape of the pruning for a single comparison on the sharding column: which tables may be dropped and under which test. NOT decided: which interval a key value belongs to (range edges, calendar arithmetic, time zones), AND/OR/NOT composition of conditions, IN / BETWEEN lists, joins, ON conditions, and whether the non-tautological EqualStart test is itself exact.",
          "", "§9 C01"),
+ "C02": ("ordering/dominance of the merge pipeline in MergeSelectResult (concatenate, distinct, fold groups, sort, limit, trim; a failed step never falls through) + must-follow rule in HandleSelectStmt (functions that append helper columns are followed by the registration of aggregate mergers) + edge dominance for the LIMIT push-down (cleared under GroupBy != nil) + the first-of-several-results rule (PC5d), over SSA",
+         "Decides the structure of the cross-shard merge only. NOT decided: the merged values (aggregate arithmetic, DISTINCT aggregates, NULL ordering, collations, decimal precision), UNION, joins, which queries are rejected. One structural clause is violated on the tree and recorded as a known finding (LIMIT pushed to the shards together with GROUP BY; a stable test pins the generated text).",
+         "", "§9 C02"),
  "C03": ("must-pass-through over the SSA CFG of the VALUES loop (R-path) + dominance of rejection calls",
          "Structural necessary condition only: no row of an INSERT ... VALUES list can take a path through the routing loop that neither places the row in a rewritten statement nor fails the statement; the shard-column rejections dominate SQL generation. Not a proof that the routed index equals the lookup index.",
          "SSA/CFG of proxy/plan is a faithful model of control flow; runtime panics are not modelled as exits.", "§4 C03"),
@@ -111,7 +114,6 @@ CLAIMS = {
 }
 
 NA = {
- "C02": "Result-multiset equivalence over data and queries; no structural necessary condition beyond what the type system enforces.",
  "C36": "Metamorphic equality of the fingerprint over statement variants is a property of string transformations.",
 }
 
